@@ -839,3 +839,10 @@ silent('s-cache2-get-lookup', ['C16', 'C17'], 'load_module looks the entry up wi
 fire('cache12-known-directories', ['C17', 'C16'], ['CACHE-12'], 'the cache remembers which version directories it has created in a module-level set (rt14-C17): a directory removed by someone else is never created again',
      (CACHE, "def _get_cache_directory_path(cache_path=None):\n    if cache_path is None:\n        cache_path = _default_cache_path\n    directory = cache_path.joinpath(_VERSION_TAG)\n    if not directory.exists():\n        os.makedirs(directory)\n    return directory\n",
       "_known_cache_directories = set()\n\n\ndef _get_cache_directory_path(cache_path=None):\n    if cache_path is None:\n        cache_path = _default_cache_path\n    directory = cache_path.joinpath(_VERSION_TAG)\n    if directory not in _known_cache_directories:\n        os.makedirs(directory, exist_ok=True)\n        _known_cache_directories.add(directory)\n    return directory\n"))
+
+# round 14: Grammar.parse
+fire('par6c-flag-to-tokenizer', ['C07'], ['PAR-6c'], 'the strict / recovering flag is also handed to the tokenizer (rt14-C07)',
+     (GRAMMAR, "        tokens = self._tokenizer(lines)\n", "        tokens = self._tokenizer(lines, error_recovery=error_recovery)\n"),
+     (GRAMMAR, "    def _tokenize_lines(self, lines, **kwargs):", "    def _tokenize_lines(self, lines, error_recovery=True, **kwargs):"))
+fire('src1-strip-eval-input', ['C01', 'C06'], ['SRC-1'], 'the text of an eval_input parse is stripped before it is tokenized (rt14-C06)',
+     (GRAMMAR, "        code = python_bytes_to_unicode(code)\n", "        code = python_bytes_to_unicode(code)\n        if start_symbol == 'eval_input':\n            code = code.strip()\n"))
